@@ -61,6 +61,13 @@ strengthened = {
     "C16-g": "C16: read-only members and static methods of the served class are executed as commands and compared with the direct access (subclasses now define static methods and override inherited members)",
     "C17-g": "C17: pool subclasses override inherited public members (lock, cancel_all, pool_size) - the command must reach the override",
     "C20-g": "C20: a wait for an item that ends with anything but CancelledError is a violation; join() pending at idle with an empty queue and no open block is a violation; every fourth execution runs with the library's loggers at DEBUG (formatting sink)",
+    "C04-h": "pool world: the empty string is used as a group name like any other (widened from the seeding agents' reports before this seed was run)",
+    "C09-h": "same widening as C04-h: a duplicate of the group name '' has to be rejected like any other duplicate",
+    "C16-h": "C16: terminal widths 0..9 are sampled; help for two different tiny widths must be byte-identical (argparse never formats narrower than its minimum), which exposes a width that is silently replaced",
+    "C19-h": "C19: the CLI client's exit command in several spellings ('Exit', ' exit ', 'eXiT'), followed by further lines that must never reach the server (pool snapshot before / after the dialogue, no echo of the later lines)",
+    "C08-h": "C08: spawners of groups cancelled before the call (even in the same tick) have to be over when gather_and_close() returns - this found defect D15 in the unchanged code",
+    "C12-h": "C12: new clause must_raise - flush() / gather_and_close() without return_exceptions returning normally although a task they still remembered had failed",
+    "C18-h": "C18: 'pool-size -N' among the lines that must change nothing; scenarios in which the pool was shrunk below what is running before the clients arrive",
     "C08-e": "C08: pool_size assignments in the C08 generator (while tasks are inside callbacks)",
     "C13-e": "C13: new 'server' family - a session's pending flush plus the program's own flush while the control server is stopped; pool generator: flush calls whose caller gives up (cancelled flush) are modelled",
     "C14-e": "C14: exact oracle for stop()/stop_all() also when tasks cancelled before their first step are around (was lenient there)",
